@@ -90,7 +90,8 @@ def check_case(c, rng):
             else:
                 o2.append(r2.op(ops[i2])); i2 += 1
         if a.get("status") == "ok":
-            if o1 != a["steps"] or o2 != a["steps"]:
+            core = lambda steps: [{k_: v_ for k_, v_ in s_.items() if k_ != "pre_hook_vars"} for s_ in steps]   # harness-side field
+            if core(o1) != core(a["steps"]) or core(o2) != core(a["steps"]):
                 fail("two engines sharing one story object interfere: an interleaved run differs from a solo run")
     except real_play.Unmodelled:
         pass
@@ -244,6 +245,53 @@ def compile_determinism(rep, seed, n):
         if container_ids(a1) & container_ids(b2) or container_ids(a1) & container_ids(a2):
             fail("two compiled stories share mutable containers")
     rep.coverage.setdefault("families", {})["c16-compile"] = {"cases": done}
+    rep.coverage["evaluations"] = rep.coverage.get("evaluations", 0) + done
+
+
+INPUT_STORY = (":: Start\n@input name=\"nm\" label=\"Name\"\nHello {_inputs.get('nm', '?')}\n+ [again] -> Start\n+ [go] -> Next\n\n"
+               ":: Next\n@if True:\n  @input name=\"age\" placeholder=\"years\"\n@endif\n@input name=\"nm\"\nAge {_inputs.get('age', '?')}\n+ [back] -> Start\n+ [stay] -> Next\n")
+
+
+def inputs_isolation(rep, n):
+    """typed input never reaches the compiled story: after submit_inputs and re-rendering, the story object is what it was,
+    and a second engine on the same object sees fresh input fields"""
+    from bardic.runtime.engine import BardEngine
+    done = 0
+    try:
+        story = corr_play.compile_source(INPUT_STORY)
+    except Exception as ex:  # noqa
+        rep.violations.append({"cls": None, "family": "c16-inputs", "what": f"probe story does not compile: {ex}", "source": INPUT_STORY})
+        return
+    for i in range(n):
+        r = rng_for(rep.seed, "inputs-iso", i)
+        shared = copy.deepcopy(story)
+        pristine = copy.deepcopy(shared)
+        ops = []
+        with quiet():
+            e1 = BardEngine(shared)
+            ref = BardEngine(copy.deepcopy(pristine))
+            first_dirs = copy.deepcopy(ref.current().input_directives)
+            for _ in range(r.randint(2, 8)):
+                k = r.random()
+                if k < 0.45:
+                    data = {r.choice(["nm", "age"]): r.choice(["Ann", "7", "", "Bo"])}
+                    ops.append({"op": "submit_inputs", "data": data})
+                    e1.submit_inputs(dict(data))
+                else:
+                    n_ch = len(e1.current().choices)
+                    j = r.randrange(n_ch)
+                    ops.append({"op": "choose", "i": j})
+                    e1.choose(j)
+            e2 = BardEngine(shared)
+            second_dirs = copy.deepcopy(e2.current().input_directives)
+        done += 1
+        if shared != pristine:
+            rep.violations.append({"cls": None, "family": "c16-inputs", "what": "the engine modified the compiled story it was given (typed input reached the story's own directive data)",
+                                   "source": INPUT_STORY, "ops": ops})
+        elif second_dirs != first_dirs:
+            rep.violations.append({"cls": None, "family": "c16-inputs", "what": f"a second engine on the same story object sees {second_dirs} where a fresh one sees {first_dirs}",
+                                   "source": INPUT_STORY, "ops": ops})
+    rep.coverage.setdefault("families", {})["c16-inputs"] = {"cases": done}
     rep.coverage["evaluations"] = rep.coverage.get("evaluations", 0) + done
 
 
